@@ -7,6 +7,7 @@ directives below (DESIGN.md 3.2).  Nothing hand-copied from /repo lives in /veri
 Directives (comment lines starting with `//@`, arguments shell-quoted):
   //@ extract NAME from FILE anchor "LIT" body            text between the braces that follow the
                                                           first `{` after the (unique) anchor line
+  //@ extract NAME from FILE anchor "LIT" block            the anchor line through the brace matching its first `{`
   //@ extract NAME from FILE anchor "LIT" until "LIT2"    whole lines from the anchor line up to,
                                                           excluding, the first later line containing LIT2
   //@ extract NAME from FILE anchor "LIT" lines N         N whole lines starting at the anchor line
@@ -15,6 +16,7 @@ Directives (comment lines starting with `//@`, arguments shell-quoted):
                                                           line containing LIT_B] by TEXT (recorded as a drop)
   //@ insert NAME before "LIT" : TEXT                     LIT must occur exactly once
   //@ insert NAME after "LIT" : TEXT
+  //@ insert NAME before-brace "LIT" : TEXT               inside the unique line containing LIT, before its last `{` (loop invariants)
   //@ expect-fail FUNCTION                                vacuity guard: this function must NOT verify
 Placeholders `/*@NAME*/` in the template are replaced by the processed text.
 Header: `//! property:`, `//! unit:`, `//! fns:`, `//! tier:`, `//! pair:` (Kani harness that replays a failure).
@@ -111,13 +113,13 @@ def build(template_path, repo=None):
                 raise stage.LostAnchor("%s: anchor %r matches %d times in %s" % (u.name, lit, len(hits), fil))
             a = hits[0]
             mode = t[6]
-            if mode == "body":
+            if mode in ("body", "block"):
                 off = sum(len(l) for l in lines[:a]) + lines[a].find(lit)
                 ob = src.find("{", off + len(lit) - 1 if lit.rstrip().endswith("{") else off)
                 if ob < 0:
                     raise stage.LostAnchor("%s: no body after %r" % (u.name, lit))
                 cb = _match_brace(src, ob)
-                body = src[ob + 1:cb]
+                body = src[ob + 1:cb] if mode == "body" else src[sum(len(l) for l in lines[:a]):cb + 1] + "\n"
                 l0 = src.count("\n", 0, ob) + 1
                 l1 = src.count("\n", 0, cb) + 1
             elif mode == "until":
@@ -161,7 +163,11 @@ def build(template_path, repo=None):
                 raise stage.LostAnchor("%s: insert anchor %r occurs %d times in %s" % (u.name, lit, n, name))
             ls = pieces[name].splitlines(keepends=True)
             i = [k for k, l in enumerate(ls) if lit in l][0]
-            ls.insert(i if where == "before" else i + 1, text.rstrip() + "\n")
+            if where == "before-brace":
+                k = ls[i].rindex("{")
+                ls[i] = ls[i][:k] + text.strip() + " " + ls[i][k:]
+            else:
+                ls.insert(i if where == "before" else i + 1, text.rstrip() + "\n")
             pieces[name] = "".join(ls)
             rec["inserts"].append("%s: ghost/proof text %s %r" % (name, where, lit))
         elif op == "expect-fail":
